@@ -27,3 +27,19 @@ pub mod o_ops;
 pub mod k_ttl;
 pub mod p_read;
 pub mod p_writers;
+
+/// Stub for `core::slice::memchr::memchr` (what `topic.as_bytes().contains(&0)` compiles to) in
+/// harnesses whose precondition is "topics are NUL-free": the assumption is placed *at the point
+/// of use*, so the rejected-topic path is cut before it can merge with the accepted one (even
+/// literal topics are opaque to CBMC once they went through `to_string()`'s memcpy).
+#[cfg(kani)]
+pub fn memchr_absent(x: u8, text: &[u8]) -> Option<usize> {
+    let mut i = 0;
+    while i < text.len() {
+        if text[i] == x {
+            kani::assume(false);
+        }
+        i += 1;
+    }
+    None
+}
